@@ -336,7 +336,7 @@ PROPS['C13'] = dict(
           'session goroutine: begin -> change* -> log -> end, flusher goroutine: lock -> page writes -> header -> unlock) the flusher '
           'holding the lock and the session being inside a bracketed statement exclude each other; C13_no_write_inside_statement; '
           'C13_all_bracketed - a `decide` over facts re-extracted from the source on every run: every Evaluate* opens with '
-          'StartTxn/defer EndTxn, the log append is inside the bracket, CREATE TABLE changes pages under the shared lock, flushPages '
+          'StartTxn/defer EndTxn, the log append is inside the bracket, CREATE TABLE changes the catalog and flushes it as one section under the exclusive lock, flushPages '
           'holds the exclusive lock for its whole body, the data file is written only from flushPages, the flusher goroutine is started in one place only, as the last step of fileStore.open after every read of the header, and only the store OpenRelation returns has a flusher (CreateDB, which changes pages under no lock, has none); '
           'C13_unbracketed_counterexample shows the hypothesis is needed. What the model cannot exhibit (Go memory model, RWMutex, '
           'scheduler) is exercised, not proved: the harness is built with -race and run against the real 100 ms timer - statements are '
